@@ -4,7 +4,7 @@
 J=${1:-4}
 SNAP=/tmp/vsnap
 rm -rf $SNAP; rsync -a --exclude .git --exclude out --exclude .scratch --exclude seeded /verif/ $SNAP/
-rel() { case $(echo $1 | sed "s/^[RSTU]/C/") in
+rel() { case $(echo $1 | sed "s/^[RSTUV]/C/") in
   C01*) echo "C01 C03";; C02*) echo "C02 C15";; C03*) echo "C03 C01";; C04*) echo "C04 C05";; C05*) echo "C05 C04";;
   C06*) echo "C06 C01";; C07*) echo "C07 C13";; C08*) echo "C08";; C09*) echo "C09 C10";; C10*) echo "C10";; C11*) echo "C11";;
   C12*) echo "C12 C01";; C13*) echo "C13 C06";; C14*) echo "C14";; C15*) echo "C15 C02";; C16*) echo "C16 C14";; C17*) echo "C17";;
